@@ -33,6 +33,14 @@
 #include <stdio.h>
 #include <stdarg.h>
 
+/* with allocation fault injection (engine/faultmalloc.h, force-included) only the library's allocations are refused, never the
+ * fixture's own (the recording sinks allocate while a pipe is inside upipe_input) */
+#ifdef VP_FAULTMALLOC_H
+#undef malloc
+#undef calloc
+#undef realloc
+#endif
+
 /* ------------------------------------------------------------------ probe */
 
 struct c16_probe {
